@@ -645,5 +645,23 @@ theorem undoLogInv_of_prefix {s : Ed} {t0 p w : Text} (h : replayLog s.changes.u
     (hl : s.line.buf = p ++ w) : UndoLogInv s :=
   ⟨t0 ++ w, by rw [hl]; exact replayLog_suffix _ w h⟩
 
+/-- every older part of a replayable log is replayable (so cutting the log back to ANY height leaves a log
+    that replays from the same start text — to the text the line had when the log had that height, unless
+    the listener has since merged into its top entry) -/
+theorem replayLog_older_part {a b : List Change} {t t' : Text} (h : replayLog (a ++ b) t = some t') :
+    ∃ t1, replayLog a t = some t1 ∧ replayLog b t1 = some t' := by
+  rw [replayLog_append] at h
+  cases h1 : replayLog a t with
+  | none => rw [h1] at h; cases h
+  | some t1 => rw [h1] at h; exact ⟨t1, rfl, h⟩
+
+/-- what a vi-mode abort has to establish, in the form the evaluated replays suggest (D47, D47b, D48: the
+    kept log replays "" to the line exactly; D49: to "" with the line "x"): the kept log replays some start
+    text to a PREFIX of the restored line -/
+theorem undoLogInv_after_cut {s : Ed} {kept : List Change} {t0 p w : Text}
+    (hk : s.changes.undos = kept) (h : replayLog kept.reverse t0 = some p) (hl : s.line.buf = p ++ w) :
+    UndoLogInv s := by
+  subst hk; exact undoLogInv_of_prefix h hl
+
 end
 end Rl
